@@ -33,6 +33,12 @@ func zzRoute(router *mux.Router, method, path, action string) zzAnswer {
 	return zzAnswer{handler: true, status: rw.status, first: zzFirst}
 }
 
+// zzAccepted: the request reached a handler and was answered with success (a body, or -
+// DELETE replica - nothing but the implicit 200)
+func zzAccepted(a zzAnswer) bool {
+	return a.handler && len(zzErrors) == 0 && a.first != "err" && a.status < 400
+}
+
 var zzCtlActions = []string{"", "start", "shutdown", "snapshot", "revert", "resize", "setlogging", "deleteSnapshot", "preparerebuild", "verifyrebuild", "nosuchaction"}
 
 // C14 (controller, through the router): any method, path, action, id and body in any
@@ -123,4 +129,95 @@ func ZZ_C18_RestPairs() {
 	l := zzRoute(router, "GET", "/v1/replicas", "")
 	zzAssert(l.handler && l.first == "ok", "C18.rest.pairs.ListReplicas-not-served-afterwards")
 	zzReach("C18.rest.pairs.done")
+}
+
+// C18 / C13 / C16 (what a controller REST request that is answered 200 has done): each
+// request of the management API, sent through the router with a well-formed body to a
+// healthy volume (RF replicas RW), has exactly the effect its name promises on the
+// volume or replica its path and body name.
+func ZZ_C18_ControllerActionEffects() {
+	rf := zzParam("RF", 2)
+	c := controller.ZZHealthyController(rf)
+	s := NewServer(c)
+	zzmux.Reset()
+	router := NewRouter(s)
+	zzReadMode = 0
+	vol := "/v1/volumes/" + EncodeID("vol")
+	victim := zzConcretize(zzChoice("victim", rf))
+	rep := "/v1/replicas/" + EncodeID(controller.ZZAddr(victim))
+	act := zzConcretize(zzChoice("action", 6))
+	zzOverride = func(obj interface{}) bool {
+		switch in := obj.(type) {
+		case *SnapshotInput:
+			in.Name = "s9"
+		case *RevertInput:
+			in.Name = "a"
+		case *ResizeInput:
+			in.Name, in.Size = "vol", "2M"
+		case *Replica:
+			if act == 4 {
+				in.Address, in.Mode = controller.ZZAddr(victim), "ERR"
+			} else {
+				in.Address = controller.ZZAddr(rf)
+			}
+		default:
+			return false
+		}
+		return true
+	}
+	var a zzAnswer
+	switch act {
+	case 0:
+		a = zzRoute(router, "POST", vol, "snapshot")
+	case 1:
+		a = zzRoute(router, "POST", vol, "revert")
+	case 2:
+		a = zzRoute(router, "POST", vol, "resize")
+	case 3:
+		a = zzRoute(router, "DELETE", rep, "")
+	case 4:
+		a = zzRoute(router, "PUT", rep, "")
+	default:
+		a = zzRoute(router, "DELETE", rep, "") // make room, then add the spare address
+		zzSettle()
+		zzAssert(zzAccepted(a), "C18.effects.delete-before-add-refused")
+		a = zzRoute(router, "POST", "/v1/replicas", "")
+	}
+	zzOverride = nil
+	zzSettle()
+	tag := []string{"snapshot", "revert", "resize", "delete-replica", "update-replica", "create-replica"}[act]
+	zzAssert(zzAccepted(a), "C18.effects.well-formed-"+tag+"-not-answered-200")
+	if !zzAccepted(a) {
+		return
+	}
+	for i := 0; i < rf; i++ {
+		m := controller.ZZModel(i)
+		isVictim := i == victim
+		switch act {
+		case 0:
+			zzAssert(len(m.Snapshots) == 1 && m.Snapshots[0] == "s9", "C18.effects.snapshot-not-taken-under-the-requested-name-on-every-replica")
+		case 1:
+			zzAssert(len(m.RevertedTo) == 1 && m.RevertedTo[0] == "volume-snap-a.img", "C18.effects.revert-not-to-the-requested-snapshot-on-every-replica")
+		case 2:
+			zzAssert(len(m.ResizeTo) == 1 && m.ResizeTo[0] == "2M", "C18.effects.resize-not-sent-with-the-requested-size")
+		case 3, 4:
+			if isVictim {
+				zzAssert(c.ZZModeOf(i) == "", "C18.effects."+tag+".named-replica-still-a-member")
+			} else {
+				zzAssert(c.ZZModeOf(i) == "RW", "C18.effects."+tag+".another-replica-affected")
+			}
+		default:
+			if !isVictim {
+				zzAssert(c.ZZModeOf(i) == "RW", "C18.effects."+tag+".another-replica-affected")
+			}
+		}
+	}
+	if act == 2 {
+		zzAssert(c.ZZSize() == 2<<20, "C18.effects.resize.volume-size-not-the-requested-one")
+	}
+	if act == 5 {
+		zzAssert(c.ZZModeOf(rf) == "WO", "C18.effects.create-replica.requested-address-not-attached-write-only")
+	}
+	c.ZZCheckMembership("C18.effects." + tag)
+	zzReach("C18.effects.done")
 }
